@@ -128,6 +128,27 @@ func DefinitelyNonNil(v ssa.Value, facts []Fact) bool {
 	}
 	switch x := v.(type) {
 	case *ssa.Call:
+		if n := CallName(x); n == "errors.Join" || n == "go.uber.org/multierr.Append" {
+			// non-nil as soon as one operand is (the variadic operands are stores into the argument array)
+			for _, a := range x.Call.Args {
+				if DefinitelyNonNil(a, facts) {
+					return true
+				}
+				if sl, ok := a.(*ssa.Slice); ok {
+					if al, ok := sl.X.(*ssa.Alloc); ok {
+						for _, r := range *al.Referrers() {
+							if ia, ok := r.(*ssa.IndexAddr); ok {
+								for _, rr := range *ia.Referrers() {
+									if st, ok := rr.(*ssa.Store); ok && st.Addr == ssa.Value(ia) && DefinitelyNonNil(st.Val, nil) {
+										return true
+									}
+								}
+							}
+						}
+					}
+				}
+			}
+		}
 		return wrapFuncs[CallName(x)] || ctxErrAfterDone(x)
 	case *ssa.UnOp:
 		if x.Op == token.MUL {
